@@ -171,6 +171,8 @@ class DispatchTrip(VehicleState):
             # generate the data to describe the trip for this request
             # where the pickup phase is currently happening + doesn't need to be added to the trip plan
             trip_plan: Tuple[Tuple[RequestId, TripPhase], ...] = ((request.id, TripPhase.DROPOFF),)
+            # ServicingPoolingTrip.enter performs the first step of its plan (the pickup) itself
+            pooling_trip_plan = ((request.id, TripPhase.PICKUP),) + trip_plan
             departure_time = sim.sim_time
 
             # create the state (pooling, or, standard servicing trip, depending on the sitch)
@@ -178,7 +180,7 @@ class DispatchTrip(VehicleState):
             pooling_next_state = (
                 ServicingPoolingTrip.build(
                     vehicle_id=vehicle.id,
-                    trip_plan=trip_plan,
+                    trip_plan=pooling_trip_plan,
                     boarded_requests=immutables.Map({request.id: request}),
                     departure_times=immutables.Map({request.id: departure_time}),
                     routes=(route,),
